@@ -178,4 +178,25 @@ PROPS = {
         technique="Coq proof (case analysis of clean_stray) + operation-sequence differential testing + removal oracle",
         assumptions=["Prune (empty-directory removal) is exercised in the thorough tier only", "file ages are set with Chtimes"],
     ),
+    "C06": dict(
+        coq="Properties/C06.v",
+        suites=[dict(name="crash", pkg="./stage/", test="TestVerifCrash", min_lines=30, timeout_quick=900,
+                     oracles=["validated_file_lost_or_misnamed_after_crash", "record_claims_bytes_not_held_after_crash",
+                              "delivered_under_lock_name_after_crash", "not_delivered_after_crash_and_resume", "redelivered_after_crash",
+                              "delivered_content_not_validated", "companion_claims_unwritten"])],
+        rule=("crash: for each of 10 (thorough 80) seeded protocol scenarios (1..3 files, 1..3 parts each, shuffled, chains, renames) EVERY durable step "
+              "of the whole run - every os.Rename/Remove/Create/WriteFile/MkdirAll in stage/, fileutil/, log/ and every log append, intercepted by generated "
+              "instrumentation - is enumerated as a crash point: the world is frozen there, the directory tree copied (crash image), a fresh Stage started "
+              "on the copy, Recover run, and the sender-side resumption (partials listing -> missing ranges -> re-send -> poll) played; the image is loaded "
+              "into the model and post-recovery / final snapshots and every answer are compared; non-trivial = something was staged or delivered in the "
+              "image; distinct = distinct (scenario, crash index) lines"),
+        level_text=("Proof + fault enumeration: theorem: from ANY durable state that satisfies the integrity invariant, every continuation (Recover, "
+                    "re-validation, finalisation, resumed reception) keeps it - nothing unvalidated is delivered after a crash; Recover's scan loses no log "
+                    "record, validated or complete body, and finishes an interrupted move (fix c24e975). That the images at EVERY durable step satisfy the "
+                    "invariant and that the model's recovery is the code's is established by enumerating all crash points of generated runs (the model's "
+                    "operations are atomic; the micro-steps are the implementation's own)."),
+        level_note=STAGE_NOTE + " Crash points are the implementation's file-system mutations (regex-instrumented copies of the sources, regenerated on every run); data writes into the .part file are not separate crash points; power-loss reordering is not modelled.",
+        technique="Coq proof (crash-closed invariant, recovery lemmas) + exhaustive crash-point enumeration with model comparison",
+        assumptions=["process death only: completed system calls are durable, no reordering", "one crash per run in the quick tier"],
+    ),
 }
